@@ -78,6 +78,14 @@ claimed["C16"] = dict(
     technique="deterministic simulation: tape-driven serial scheduler of goroutines (raw-pipe baton invisible to the race detector) + Go race detector as monitor + solo-run reference results",
 )
 
+claimed["C19"] = dict(
+    level="exploration",
+    text="Seeded search over (text, schedule): builder.Parse runs inside a testing/synctest bubble (go1.26.8); a yield is inserted before every channel operation of the builder package and at every quiescence the tape decides which parked goroutine proceeds. Texts are selections from sample descriptions of GSUB1-6/GPOS1-4, Explain output of generated lookups and random bytes, with 0..3 token-level faults (the parse error is the fault point: it decides where the consumer abandons the producers). Decided: returns lookups or an error with a line number; no panic; no deadlock (quiescence with Parse unreturned); no goroutine left behind (goroutines of the builder package alive after everything was released); termination within a step budget. The notation round trip Parse(Explain(L)) == L is evaluated for every accepted text as an incidental oracle.",
+    design="3 C19",
+    note="Trusted: testing/synctest's quiescence detection, goroutine dumps for leak attribution, the rewriter's coverage of channel operations. Not decided: that parsing 'means what the documented syntax says' beyond the round trip; lookup lists are generated from the language's own samples and Explain output, not from an independent grammar.",
+    technique="deterministic simulation: tape-driven goroutine scheduler inside a synctest bubble (quiescence = deadlock/leak oracle), parse errors as fault points",
+)
+
 pending = {k: PENDING_REASON for k in ["C01", "C02", "C03", "C07", "C15", "C16", "C18", "C19", "C20"] if k not in claimed}
 
 not_applicable = {
